@@ -121,6 +121,7 @@ OPS_DEPS = {
     "ops_kmeans.c": ["shim_kmeans.c", "shim_kmeans_serial.c"],
     "ops_pipe.c": [],
     "ops_pipefile.c": ["shim_run_kalign.c"],
+    "ops_cli.c": ["shim_run_kalign.c"],
     "ops_weave.c": [],
     "ops_ref.c": [],
     "ops_sys.c": [],
